@@ -115,6 +115,10 @@ func TestC18(t *testing.T) {
 		}
 		idx := uint64(rng.Intn(8*ln + 9))
 		one("rand", bs, limit, idx)
+		if k%16 == 0 {
+			// "no bound": limits within a few units of 2^64 (rounding expressions must not wrap)
+			one("maxlimit", bs, ^uint64(0)-uint64(rng.Intn(20)), idx)
+		}
 	}
 	// covers
 	for k := 0; k < n/3; k++ {
